@@ -63,6 +63,12 @@ int main(int argc, char** argv) {
         LagrangeHalfCPolynomialMul(lr, la, lb); TorusPolynomial_fft(r, lr); obs("P:lagrange_mul", hmix(11, R16(r), 2 * (size_t)N));
         TorusPolynomial_ifft(lr, acc); LagrangeHalfCPolynomialAddMul(lr, la, lb); TorusPolynomial_fft(r, lr); obs("P:lagrange_addmul", hmix(12, R16(r), 2 * (size_t)N));
         TorusPolynomial_ifft(lr, acc); LagrangeHalfCPolynomialSubMul(lr, la, lb); TorusPolynomial_fft(r, lr); obs("P:lagrange_submul", hmix(13, R16(r), 2 * (size_t)N));
+        /* the same products with the result (or the accumulator) being one of the operands: the value must be that of the three-object call, in every variant */
+        LagrangeHalfCPolynomialMul(la, la, lb); TorusPolynomial_fft(r, la); obs("P:lagrange_mul", hmix(11, R16(r), 2 * (size_t)N)); IntPolynomial_ifft(la, a);
+        LagrangeHalfCPolynomialMul(lb, la, lb); TorusPolynomial_fft(r, lb); obs("P:lagrange_mul", hmix(11, R16(r), 2 * (size_t)N)); TorusPolynomial_ifft(lb, b);
+        LagrangeHalfCPolynomialAddMul(lb, la, lb); TorusPolynomial_fft(r, lb); obs("P:lagrange_addmul_inplace_b", hmix(15, R16(r), 2 * (size_t)N)); TorusPolynomial_ifft(lb, b);
+        LagrangeHalfCPolynomialSubMul(lb, la, lb); TorusPolynomial_fft(r, lb); obs("P:lagrange_submul_inplace_b", hmix(16, R16(r), 2 * (size_t)N)); TorusPolynomial_ifft(lb, b);
+        TorusPolynomial_ifft(lr, b); LagrangeHalfCPolynomialAddMul(lr, la, lr); TorusPolynomial_fft(r, lr); obs("P:lagrange_addmul_inplace_b", hmix(15, R16(r), 2 * (size_t)N));
         LagrangeHalfCPolynomialClear(lr); LagrangeHalfCPolynomialAddTo(lr, lb); LagrangeHalfCPolynomialAddTorusConstant(lr, (Torus32)(5u << 24)); TorusPolynomial_fft(r, lr); obs("P:lagrange_addto_const", hmix(14, R16(r), 2 * (size_t)N));
         delete_LagrangeHalfCPolynomial(la); delete_LagrangeHalfCPolynomial(lb); delete_LagrangeHalfCPolynomial(lr);
         delete_IntPolynomial(a); delete_TorusPolynomial(b); delete_TorusPolynomial(r); delete_TorusPolynomial(acc);
